@@ -270,6 +270,36 @@ def run_oracle_cases(v, runs, oracle, why):
     return concrete
 
 
+def strace_tie_step(v, prop, suites, cov):
+    """Recorder completeness: run harness suites under strace and demand that the kernel saw exactly the
+    recorded calls inside every recorded window (tools/strace_tie.py).  A system call the library makes without
+    going through its wrappers (std::fs, a direct libc/rustix call) is invisible to the recorder and so to the
+    transcript tie; here it is a concrete violation: the call as the kernel saw it."""
+    import strace_tie
+    tot = {"windows": 0, "syscalls_seen_by_kernel": 0, "recorded_calls": 0, "mismatching_windows": 0, "suites": []}
+    for i, args in enumerate(suites):
+        try:
+            r = strace_tie.run(vlib.HARNESS_BIN, args + ["--out", "/dev/null"],
+                               os.path.join(CACHE, "strace-tie", f"{prop}-{i}"), timeout=1500)
+        except Exception as e:  # strace missing or timed out: the step could not run
+            r = {"cmd": " ".join(args), "windows": 0, "syscalls": 0, "recorded_calls": 0,
+                 "mismatches": [{"window": -1, "what": ["strace tie could not run: " + repr(e)[:300]]}]}
+        tot["windows"] += r["windows"]
+        tot["syscalls_seen_by_kernel"] += r["syscalls"]
+        tot["recorded_calls"] += r["recorded_calls"]
+        tot["suites"].append(" ".join(args))
+        tot["mismatching_windows"] += len(r["mismatches"])
+        for m in r["mismatches"][:3]:
+            facts = {"kind": "strace", "suite": " ".join(args), "window": m["window"], "oracle": m["what"][0][:300]}
+            concrete = m["window"] >= 0
+            v.fail(facts, {"why": "the kernel (strace) and the recorder disagree about the system calls of one library call: "
+                                  "the library made a system call outside its recorded wrappers, or the recorder misreports one",
+                           "suite": "strace -f " + vlib.HARNESS_BIN + " " + " ".join(args),
+                           "window": m["window"], "differences": m["what"],
+                           "broken": ["recorder completeness (tools/strace_tie.py)"]}, concrete=concrete)
+    cov["strace_tie"] = tot
+
+
 def check_C01(v, tier, seed):
     runs = root_runs("C01", tier, seed, "lookups", 1500, 30000)
     concrete = run_oracle_cases(v, runs, oracle_kernel_equiv,
@@ -485,6 +515,7 @@ def check_C14(v, tier, seed):
     cov = coverage_of(runs)
     cov["tie_mismatches"] = broken
     cov["effect_verdicts"] = effect_stats(runs)
+    strace_tie_step(v, "C14", [["root", "--ops", "single_valid", "--seed", str(seed + 53), "--n", str(sizes(tier, 150, 2000))]], cov)
     return cov
 
 
@@ -498,6 +529,7 @@ def check_C12(v, tier, seed):
     cov["tie_mismatches"] = broken
     cov["effect_verdicts"] = effect_stats(runs)
     cov.update(race_suite(v, "C12", "mkdir_all", tier, seed))
+    strace_tie_step(v, "C12", [["root", "--ops", "mkdir_all", "--seed", str(seed + 53), "--n", str(sizes(tier, 150, 2000))]], cov)
     return cov
 
 
@@ -512,6 +544,7 @@ def check_C13(v, tier, seed):
     cov["tie_mismatches"] = broken
     cov["effect_verdicts"] = effect_stats(runs)
     cov.update(race_suite(v, "C13", "remove_all", tier, seed))
+    strace_tie_step(v, "C13", [["root", "--ops", "remove_all", "--seed", str(seed + 53), "--n", str(sizes(tier, 150, 2000))]], cov)
     return cov
 
 
@@ -540,6 +573,7 @@ def check_C03(v, tier, seed):
     broken = generic_tie(v, runs, concrete)
     cov = coverage_of(runs)
     cov["tie_mismatches"] = broken
+    strace_tie_step(v, "C03", [["root", "--ops", "mutating", "--seed", str(seed + 31), "--n", str(sizes(tier, 150, 2000))]], cov)
     return cov
 
 
@@ -591,6 +625,9 @@ def check_C05(v, tier, seed):
     cov["tie_mismatches"] = broken
     cov["calls_checked_against_Disc"] = ncalls
     cov["follow_opens_seen"] = follow
+    strace_tie_step(v, "C05", [["root", "--ops", "all", "--seed", str(seed + 37), "--n", str(sizes(tier, 200, 3000))],
+                               ["proc-live", "--seed", str(seed + 41), "--n", str(sizes(tier, 60, 600))],
+                               ["reopen", "--seed", str(seed + 43)]], cov)
     return cov
 
 
@@ -603,6 +640,9 @@ def check_C11(v, tier, seed):
     broken = generic_tie(v, runs, concrete)
     cov = coverage_of(runs)
     cov["tie_mismatches"] = broken
+    # descriptors opened, duplicated or closed behind the recorder's back
+    strace_tie_step(v, "C11", [["root", "--ops", "all", "--seed", str(seed + 47), "--n", str(sizes(tier, 150, 2000))],
+                               ["capi-args"]], cov)
     return cov
 
 
